@@ -1,7 +1,7 @@
 (* C17 — FASTA output reads back identically.
    fasta_format = Fasta.WriteTo (70-column wrap.Force), fasta_parser =
    FastaParser on the faithful pars model, scan_fasta = the Scanner loop. *)
-From GTS Require Import Base Pars Fasta FastaProofs.
+From GTS Require Import Base Pars ParsLemmas Fasta FastaProofs GbFasta.
 Open Scope Z_scope.
 
 (* one record, followed by the end of input or by another record: read back
@@ -29,6 +29,40 @@ Theorem C17_unwrap : forall fuel data, (length data <= fuel)%nat ->
   fasta_body_data (wrap_force fuel data 70 ++ [10]) = data.
 Proof. exact body_data. Qed.
 Print Assumptions C17_unwrap.
+
+(* second sentence of the property: a GenBank record written as FASTA
+   (gb_to_fasta = FastaWriter.WriteSeq with GenBankFields.String as the
+   description) reads back as ONE record whose residues are the record's
+   residues and whose description is version, ":head+1-tail" for a slice
+   (region = Some (head, tail)), a blank and the definition with the line
+   breaks of a multi-line DEFINITION turned into blanks; for every version
+   and definition (no carriage return), every region, every residue count *)
+Theorem C17_genbank_to_fasta : forall ver reg def data,
+  no_eol ver -> region_ok reg -> no_byte 13 def ->
+  no_byte 10 data -> no_byte 13 data -> no_gt data ->
+  scan_fasta (gb_to_fasta ver reg def data) =
+  Ok ([(gb_desc ver reg (nl_to_space def), data)], true).
+Proof. exact gb_fasta_scan. Qed.
+Print Assumptions C17_genbank_to_fasta.
+
+(* the same inside a stream: the parser stops exactly at the next record *)
+Theorem C17_genbank_to_fasta_record : forall ver reg def data post o e a k,
+  no_eol ver -> region_ok reg -> no_byte 13 def ->
+  no_byte 10 data -> no_byte 13 data -> no_gt data -> stops post ->
+  exists o' e',
+    fasta_parser (mkst (gb_to_fasta ver reg def data ++ post) o e a k) =
+    (Ok (gb_desc ver reg (nl_to_space def), data),
+     mkst post o' e' (a + zlen (gb_to_fasta ver reg def data)) k).
+Proof. exact gb_fasta_record. Qed.
+Print Assumptions C17_genbank_to_fasta_record.
+
+(* NC_001422.1, residues 11..95 of it, a two-line definition *)
+Example C17_genbank_example :
+  let ver := [78; 67; 95; 48; 48; 49; 52; 50; 50; 46; 49] in
+  let def := [112; 104; 105; 10; 88] in let p := repeat 99 85 in
+  scan_fasta (gb_to_fasta ver (Some (10, 95)) def p) =
+  Ok ([(ver ++ [58; 49; 49; 45; 57; 53; 32; 112; 104; 105; 32; 88], p)], true).
+Proof. vm_compute. reflexivity. Qed.
 
 Example C17_example :
   let d := [115; 49] in let p := repeat 97 141 in
